@@ -50,6 +50,15 @@ inductive Err
   | type             -- `_num_emitted[i]` is None for an active emitter (never happens, see C16.tell_ok)
 deriving DecidableEq, Repr
 
+/-- The property's UCB1 score of a previously selected emitter,
+`success/selection + zeta*sqrt(ln(total success)/selection)`; `sq` and `ln` stand for the real
+square root and logarithm (not computable, so the driver receives rational brackets of this value),
+and the total is clamped at 1 (`ln 1 = 0`) so that the score exists before the first success, as
+`np.log(max(self._success.sum(), 1.0))` does.  `PyribsProofs/GenFCtl.lean` proves the expression
+generated from the source equal to this one. -/
+def ucbSpec (sq ln : Rat → Rat) (success selection zeta total : Rat) : Rat :=
+  success / selection + zeta * sq (ln (if total ≤ 1 then 1 else total) / selection)
+
 /-- UCB1 score bracket; `top` = +inf (never selected) -/
 inductive Score
   | top
